@@ -27,6 +27,14 @@
 (*  CtxDestroyed                 the context's destructor returned         *)
 (*  MarkInactive / Told{i}       (atomic queue driver) consumer marked the *)
 (*                               queue inactive / enqueue(i) returned true *)
+(*  MarkActive{r}                try_mark_active() returned r              *)
+(*  SchedEq{k,want,got}          result of an equality / type() comparison *)
+(*                               of type-erased schedulers (any_scheduler, *)
+(*                               any_scheduler_ref); want = the answer for *)
+(*                               the wrapped schedulers                    *)
+(*  Ran.sub                      schedule_with_subscheduler: 1 iff the     *)
+(*                               delivered value equals the scheduler,     *)
+(*                               0 if not, -1 not applicable               *)
 (***************************************************************************)
 EXTENDS Naturals, Sequences, FiniteSets, TLC, TraceIO
 Items == 1..16
@@ -104,6 +112,7 @@ Ran == /\ Is("Ran")
           ELSE E.ch = 1 => (E.t \in ctxThreads /\ E.own # 0)                \* value completes on a thread of the context
        /\ cfg.fifo = 1 => before[E.i] \subseteq ran                         \* FIFO among non-overlapping accepts
        /\ cfg.maxd > 0 => E.d <= cfg.maxd                                   \* trampoline nesting bound
+       /\ E.sub # 0                                                         \* the sub-scheduler delivered is the scheduler
        /\ ran' = ran \cup {E.i}
        /\ UNCHANGED <<cfg, accBegun, accOpen, accEnded, acceptor, before, stopCtxBegun, mustRun, stopBegun, stopEnded,
                       stopBeforeAccept, stopAtTok, ctxThreads, created, joined, openAcc, inactive>>
@@ -142,7 +151,15 @@ Told == /\ Is("Told") /\ inactive /\ inactive' = FALSE
 End == /\ (Is("End") \/ Is("AssertFail"))   \* End carries the schedule for replay; AssertFail = a UNIFEX_ASSERT failed (recorded, out of scope); no obligation
        /\ UNCHANGED <<cfg, accBegun, accOpen, accEnded, acceptor, before, ran, stopCtxBegun, mustRun, stopBegun, stopEnded,
                       stopBeforeAccept, stopAtTok, ctxThreads, created, joined, openAcc, inactive>>
-Next == End \/ Reset \/ AcceptBegin \/ AcceptEnd \/ StopItemBegin \/ StopItemEnd \/ Tok \/ Ran \/ RunBegin \/ RunReturn
+\* try_mark_active() succeeds iff the queue is inactive
+MarkActive == /\ Is("MarkActive") /\ (E.r = 1) = inactive /\ inactive' = FALSE
+              /\ UNCHANGED <<cfg, accBegun, accOpen, accEnded, acceptor, before, ran, stopCtxBegun, mustRun, stopBegun,
+                             stopEnded, stopBeforeAccept, stopAtTok, ctxThreads, created, joined, openAcc>>
+\* type-erased schedulers compare like the schedulers they wrap
+SchedEq == /\ Is("SchedEq") /\ E.want = E.got
+           /\ UNCHANGED <<cfg, accBegun, accOpen, accEnded, acceptor, before, ran, stopCtxBegun, mustRun, stopBegun, stopEnded,
+                          stopBeforeAccept, stopAtTok, ctxThreads, created, joined, openAcc, inactive>>
+Next == End \/ MarkActive \/ SchedEq \/ Reset \/ AcceptBegin \/ AcceptEnd \/ StopItemBegin \/ StopItemEnd \/ Tok \/ Ran \/ RunBegin \/ RunReturn
         \/ ThreadCreated \/ ThreadJoined \/ StopCtx \/ CtxDestroyed \/ MarkInactive \/ Told
 Spec == Init /\ [][Next]_vars
 Track == TrackAt(l, Closed)
